@@ -35,6 +35,9 @@ pub fn bounds_violation<F: Fam>(inst: &F, out: &Outcome) -> Vec<(&'static str, S
 
 /// longest uninterrupted run (in cutoff polls) whose cutoff indices are enumerated / sampled
 static REF_CAP: std::sync::atomic::AtomicU64 = std::sync::atomic::AtomicU64::new(150_000);
+/// runs of at most that many polls have every cutoff index enumerated, longer ones ~90 sampled indices (tried 100 for C05 quick so
+/// that more distinct instances are reached; kept at 300: lowering it did not reach more witnesses)
+static FULL_UP_TO: std::sync::atomic::AtomicU64 = std::sync::atomic::AtomicU64::new(300);
 fn seq_enumeration<F: Fam>(spec: &CaseSpec, prop: &'static str) {
     let inst = Arc::new(F::generate(spec.gen_seed, spec.size, spec.variant));
     let mut cfg = spec.cfg.clone();
@@ -66,7 +69,8 @@ fn seq_enumeration<F: Fam>(spec: &CaseSpec, prop: &'static str) {
     // every poll index when the run is short; for long runs (medium sized instances) a sample of ~90 indices: windows of
     // consecutive indices + the last two (by transitivity a violation of the pairwise clauses between two sampled indices
     // implies one between two consecutive indices)
-    let ks: Vec<u64> = if kmax <= 300 { (1..=kmax + 1).collect() } else {
+    let full = FULL_UP_TO.load(std::sync::atomic::Ordering::Relaxed);
+    let ks: Vec<u64> = if kmax <= full { (1..=kmax + 1).collect() } else {
         let mut rng = crate::util::Rng::derive(spec.gen_seed, &[0xC5, kmax]);
         let mut v: Vec<u64> = (0..30).flat_map(|_| { let s = 1 + rng.below(kmax - 2); vec![s, s + 1, s + 2] }).collect();
         v.extend_from_slice(&[1, 2, kmax, kmax + 1]);
@@ -74,7 +78,7 @@ fn seq_enumeration<F: Fam>(spec: &CaseSpec, prop: &'static str) {
         v.dedup();
         v
     };
-    if kmax > 300 { with_acc(|a| a.bump("instances_with_sampled_poll_indices", 1)); }
+    if kmax > full { with_acc(|a| a.bump("instances_with_sampled_poll_indices", 1)); }
     let mut prev_k = 0u64;
     for k in ks {
         tick();
@@ -120,7 +124,7 @@ fn seq_enumeration<F: Fam>(spec: &CaseSpec, prop: &'static str) {
     }
     with_acc(|a| {
         a.bump("instances_enumerated", 1);
-        a.bump("poll_indices_enumerated", if kmax <= 300 { kmax + 1 } else { 90 });
+        a.bump("poll_indices_enumerated", if kmax <= full { kmax + 1 } else { 90 });
         if prop == "C19" && ubs.len() >= 3 && lbs.len() >= 2 {
             a.nontrivial.insert(hash_of(&(inst.ihash(), format!("{:?}", cfg.json()))));
             if a.samples.len() < a.max_samples { a.sample(light_case(spec, inst.as_ref()).set("polls", J::i(kmax)).set("distinct_lower_bounds", J::ints(&lbs.iter().copied().collect::<Vec<_>>())).set("distinct_upper_bounds", J::ints(&ubs.iter().copied().collect::<Vec<_>>()))); }
@@ -181,12 +185,21 @@ pub fn run_c05(shard: &Shard) -> i32 {
     set_current(PROP, false);
     if let Some(path) = &shard.replay { return replay(path, PROP); }
     REF_CAP.store(if shard.quick() { 4000 } else { 20_000 }, std::sync::atomic::Ordering::Relaxed);
+    FULL_UP_TO.store(300, std::sync::atomic::Ordering::Relaxed);
     case_loop(shard, u64::MAX, |_i, rng| {
         if shard.idx % 2 == 0 {
             // (re-convergent instances: the same state at the same depth sits in the cut-sets of several open sub-problems, with
             // different bounds - what a duplicate-free fringe has to coalesce correctly)
             let p = Profile { with_dominance: true, small: rng.chance(1, 6), depth_free_bias: rng.chance(1, 3), reconvergent: rng.chance(1, 3), medium_share: if shard.quick() { 0 } else { 1 }, large_share: if shard.idx % 16 == 14 { 8 } else { 0 }, ..Default::default() };
-            let spec = random_spec(rng, &p);
+            let mut spec = random_spec(rng, &p);
+            // two fifths of the table instances in the deceptive style (rewards 0..19, a large terminal reward behind one base
+            // state, loose or no rough bound): the incumbent stays sub-optimal for most of the search, so that an unsound
+            // upper bound at the cutoff has room to fall below the optimum
+            if spec.family == 'T' && rng.chance(2, 5) {
+                use crate::models::tmodel::*;
+                spec.size = (spec.size & !(F_DEPTH_FREE | F_IRRELEVANCE | F_ABSORBING | F_CONSERVATIVE)) | F_DECEPTIVE;
+                spec.variant.rub = if rng.chance(2, 3) { crate::models::RubKind::None } else { crate::models::RubKind::Slack((rng.next() % 1000) | 1) };
+            }
             with_family!(spec.family, seq_enumeration, &spec, PROP);
         } else {
             let spec = tiny_spec(rng, false);
